@@ -105,6 +105,12 @@ def canon_md(md, drop=()):
     for k, v in md.abs_ns(md.current_ns() + ns).items():
       if k in drop:
         continue
+      if k == 'incorporated_completed_trials_ids' and isinstance(v, str):
+        # json.dumps(list(<a Python set>)): the order of the list is not state
+        try:
+          v = json.dumps(sorted(json.loads(v)))
+        except (ValueError, TypeError):
+          pass
       out.append([ns.encode().lstrip(':') + '|' + k, v if isinstance(v, str) else repr(v)])
   return sorted(out)
 
